@@ -108,6 +108,29 @@ class JnpAddPlugin(PrimitiveLeafPlugin):
         specs: list[AssignSpec | MonkeyPatchSpec] = jnp_binding_specs(
             cls._PRIM, cls._FUNC_NAME
         )
+        for spec in specs:
+            if isinstance(spec, MonkeyPatchSpec) and spec.attr == cls._FUNC_NAME:
+                make_bound = spec.make_value
+
+                def _make_value(orig: Any, _make_bound: Any = make_bound) -> Any:
+                    bound = _make_bound(orig)
+
+                    def _rank_aligned(x: Any, y: Any, *args: Any, **kwargs: Any) -> Any:
+                        # The differentiation rules are lax.add_p's (forwarded),
+                        # and those require operands of equal rank: left-pad the
+                        # lower-rank operand numpy-style before binding, so that
+                        # e.g. grad through ``jnp.add(bias, matrix)`` exports.
+                        xr, yr = np.ndim(x), np.ndim(y)
+                        if xr and yr and xr != yr:
+                            if xr < yr:
+                                x = jax.lax.reshape(x, (1,) * (yr - xr) + tuple(np.shape(x)))
+                            else:
+                                y = jax.lax.reshape(y, (1,) * (xr - yr) + tuple(np.shape(y)))
+                        return bound(x, y, *args, **kwargs)
+
+                    return _rank_aligned
+
+                spec.make_value = _make_value
         return specs
 
 
